@@ -875,6 +875,12 @@ class H2Stream:
 
         events = self.state_machine.process_input(input_)
 
+        # Every check that can refuse this call has to happen before the
+        # header block is encoded: the HPACK encoder is stateful, and a block
+        # that is encoded but never sent leaves it out of sync with the peer.
+        if self.state_machine.trailers_sent and not end_stream:
+            raise ProtocolError("Trailers must have END_STREAM set.")
+
         hf = HeadersFrame(self.stream_id)
         hdr_validation_flags = self._build_hdr_validation_flags(events)
         frames = self._build_headers_frames(
@@ -886,9 +892,6 @@ class H2Stream:
             # frame, not the CONTINUATION frames that follow.
             self.state_machine.process_input(StreamInputs.SEND_END_STREAM)
             frames[0].flags.add('END_STREAM')
-
-        if self.state_machine.trailers_sent and not end_stream:
-            raise ProtocolError("Trailers must have END_STREAM set.")
 
         if self.state_machine.client and self._authority is None:
             self._authority = authority_from_headers(headers)
@@ -1273,6 +1276,11 @@ class H2Stream:
             headers = validate_outbound_headers(
                 headers, hdr_validation_flags
             )
+
+        # The steps above are lazy generators: run them to completion before
+        # the encoder sees a single header, so that a validation failure in a
+        # later header cannot leave earlier ones in the HPACK dynamic table.
+        headers = list(headers)
 
         encoded_headers = encoder.encode(headers)
 
